@@ -5,9 +5,11 @@
 package auth
 
 import (
+	"errors"
 	"fmt"
 	"math/rand"
 	"os"
+	"strings"
 	"testing"
 )
 
@@ -22,19 +24,22 @@ func TestVerifC19Salt(t *testing.T) {
 		out.Write(map[string]interface{}{"ev": "reset", "scn": scn.ID, "site": scn.Site, "toks": scn.Toks})
 		got, err := SaltToken(tok.token, vC19Remote)
 		again, err2 := SaltToken(tok.token, vC19Remote)
+		// "salted": the result carries the expected salted form (same UUID, the harness's own HMAC) as its
+		// first three segments - further segments of the original may or may not be kept - and a second
+		// call gives the same result
 		r := "other"
 		switch {
-		case err == ErrSalted:
+		case errors.Is(err, ErrSalted):
 			r = "ErrSalted"
-		case err == ErrObsoleteToken:
+		case errors.Is(err, ErrObsoleteToken):
 			r = "ErrObsolete"
-		case err == ErrTokenFormat:
+		case errors.Is(err, ErrTokenFormat):
 			r = "ErrFormat"
 		case err != nil:
 			r = "other"
 		case got == tok.token:
 			r = "same"
-		case got == tok.salted && again == got && err2 == nil:
+		case (got == tok.salted || strings.HasPrefix(got, tok.salted+"/")) && !strings.Contains(got, tok.secret) && again == got && err2 == nil:
 			r = "salted"
 		}
 		out.Write(map[string]interface{}{"ev": "salt", "r": r})
